@@ -31,7 +31,12 @@ fn neighborhood(nw: &Arc<Network>) -> RSSchedParallelNeighborhood {
 }
 
 fn candidates(nb: &RSSchedParallelNeighborhood, s: &Schedule) -> Result<Vec<ScheduleWithInfo>, ()> {
-    let swi = ScheduleWithInfo::new(s.clone(), SwapInfo::NoSwap, String::new());
+    candidates_after(nb, s, SwapInfo::NoSwap)
+}
+
+// the neighbourhood looks at the last accepted swap (provider rotation after a PathExchange)
+fn candidates_after(nb: &RSSchedParallelNeighborhood, s: &Schedule, last: SwapInfo) -> Result<Vec<ScheduleWithInfo>, ()> {
+    let swi = ScheduleWithInfo::new(s.clone(), last, String::new());
     guarded(|| nb.neighbors_of(&swi).collect::<Vec<_>>())
 }
 
@@ -166,18 +171,29 @@ pub fn run_neigh(case: &serde_json::Value, out: &mut String) {
     };
     let nb = neighborhood(&nw);
     let maxdump = case["maxdump"].as_u64().unwrap_or(60) as usize;
+    let mut last = SwapInfo::NoSwap;
     for (d, pick) in case["walk"].as_array().unwrap().iter().enumerate() {
         let mut before = String::new();
         dump_schedule(&state, "base", &mut before);
         out.push_str(&before);
-        match candidates(&nb, &state) {
+        match candidates_after(&nb, &state, last) {
             Err(_) => {
                 writeln!(out, "NEIGH {} PANIC", d).unwrap();
                 writeln!(out, "{}", panic_note()).unwrap();
                 return;
             }
             Ok(c) => {
-                writeln!(out, "NEIGH {} ncand={}", d, c.len()).unwrap();
+                writeln!(
+                    out,
+                    "NEIGH {} last={} ncand={}",
+                    d,
+                    match last {
+                        SwapInfo::PathExchange(p) => format!("px:{}", crate::sched::vid(p)),
+                        _ => "-".to_string(),
+                    },
+                    c.len()
+                )
+                .unwrap();
                 let mut after = String::new();
                 dump_schedule(&state, "base", &mut after);
                 writeln!(out, "BASEUNCHANGED {}", (before == after) as u8).unwrap();
@@ -217,6 +233,7 @@ pub fn run_neigh(case: &serde_json::Value, out: &mut String) {
                     }
                 }
                 state = c[k].get_schedule().clone();
+                last = c[k].get_last_swap_info();
             }
         }
     }
